@@ -51,6 +51,8 @@ Lemma hget_mod_eq h a (f : blk -> blk) : issome (h a) = true -> hget (upd h a (o
 Proof. unfold hget. rewrite upd_eq. destruct (h a); cbn; congruence. Qed.
 Lemma hget_upd_neq h a a' v : a' <> a -> hget (upd h a v) a' = hget h a'.
 Proof. intros. unfold hget. now rewrite upd_neq. Qed.
+Lemma hget_upd_same h a b : hget (upd h a (Some b)) a = b.
+Proof. unfold hget. now rewrite upd_eq. Qed.
 Lemma hget_mod h a (f : blk -> blk) a' : issome (h a) = true ->
   hget (upd h a (option_map f (h a))) a' = if Nat.eqb a' a then f (hget h a) else hget h a'.
 Proof. intros H. destruct (Nat.eqb_spec a' a); [subst; now apply hget_mod_eq | now apply hget_upd_neq]. Qed.
